@@ -27,8 +27,20 @@ def f_nd(x, k=2):
     """a predicate with a defaulted parameter, used with and without it in the same query / process"""
     return x.n > k
 
+@_predicate
+def f_clr(u, p, d):
+    """relates a flattened element to the parent it came from and to a third object"""
+    return u.n + d.n > p.k + 2
+
+
+@_predicate
+def f_member(owner, x, collection):
+    """is x one of the collection (which is computed from the owner given before it)"""
+    return any(x is c for c in collection)
+
+
 SIMPLE = ("pk", "en", "dn", "e_in_tuple", "pred_le", "d_in_conc_p", "d_in_conc_esubs", "e_obj_in", "e_eq_d", "pred_default")
-WITH_D = {"dn", "pred_le", "d_is_the_e", "d_in_conc_p", "d_in_conc_esubs", "d_in_conc_psubs", "forall_subs_vs_d", "e_eq_d",
+WITH_D = {"forall_flat_free_parent", "pred_conc_arg", "dn", "pred_le", "d_is_the_e", "d_in_conc_p", "d_in_conc_esubs", "d_in_conc_psubs", "forall_subs_vs_d", "e_eq_d",
           "dn_le_an_flat"}
 
 
@@ -52,7 +64,7 @@ def gen_atom(rng, simple_only=False):
     t = lambda: rng.randint(1, 6)
     kinds = list(SIMPLE) if simple_only else list(SIMPLE) + ["d_is_the_e", "e_le_sub_an", "exists_an", "d_in_conc_psubs", "forall_subs",
                                                              "forall_items_an", "forall_subs_vs_d", "or", "not", "dn_le_an_flat",
-                                                             "p_has_elem", "pred_default", "forall_over_query_with_forall"]
+                                                             "p_has_elem", "pred_default", "forall_over_query_with_forall", "forall_flat_free_parent", "pred_conc_arg", "pred_conc_arg"]
     k = rng.choice(kinds)
     if k == "pk":
         return ["pk", op(), rng.randint(0, 4)]
@@ -160,6 +172,14 @@ def holds(a, p, x, d, es):
         return all(OPS[a[1]](b.n, a[2]) for b in p.items)
     if k == "forall_subs_vs_d":
         return all(OPS[a[1]](u.n, d.n) for u in x.subs)
+    if k == "pred_conc_arg":
+        # f_member(d, e, concatenate(d.subs)): the concatenation is an ARGUMENT of a predicate term, collected over the variable
+        # that an earlier argument of the same term binds (arguments are bound left to right)
+        return any(x is y for y in d.subs)
+    if k == "forall_flat_free_parent":
+        # for_all(u, f_clr(u, p2, d)) with u = flatten(p2.items), p2 a variable of its own that nothing binds: the universal
+        # rows are ALL (parent, element) pairs, an element that sits in two parents is checked against both
+        return all(y.n + d.n > p2.k + 2 for p2 in CUR_PS for y in p2.items)
     if k == "forall_over_query_with_forall":
         # for_all(sub, in_(e, sub.items)) with sub = an(entity(p2, for_all(u2, in_(u2, p2.items)))), u2 over the named elements:
         # the element is in every parent that holds every named element
@@ -258,6 +278,12 @@ def build(case, es, ps, quant="an"):
             if k == "forall_subs_vs_d":
                 u = flatten(e.subs)
                 return for_all(u, OPS[a[1]](u.n, d.n))
+            if k == "pred_conc_arg":
+                return f_member(d, e, concatenate(d.subs))
+            if k == "forall_flat_free_parent":
+                p2 = let(Par, ps)
+                u = flatten(p2.items)
+                return for_all(u, f_clr(u, p2, d))
             if k == "forall_over_query_with_forall":
                 p2 = let(Par, ps)
                 u2 = let(E, [es[j] for j in a[1]])
@@ -343,10 +369,10 @@ def check(c, ctx):
 
 
 FEATURE_TAGS = {
-    "C10": {"forall_subs", "forall_items_an", "forall_subs_vs_d", "forall_over_query_with_forall"},
+    "C10": {"forall_subs", "forall_items_an", "forall_subs_vs_d", "forall_over_query_with_forall", "forall_flat_free_parent"},
     "C15": {"d_is_the_e", "e_le_sub_an", "exists_an", "dn_le_an_flat", "p_has_elem", "forall_items_an", "en_in_subquery"},
     "C16": None,        # every IX query unnests a collection
-    "C17": {"d_in_conc_p", "d_in_conc_esubs", "d_in_conc_psubs"},
+    "C17": {"d_in_conc_p", "d_in_conc_esubs", "d_in_conc_psubs", "pred_conc_arg"},
 }
 
 
